@@ -208,7 +208,10 @@ def gen_case_restart(seed, tier, index=0):
     knobs = common.knobs_from(rr, tier)
     knobs['workers'] = rr.choice([None, None, 2])
     return {'comps': comps, 'stage_opts': {}, 'plan': plan, 'hook': hook, 'hook_file': use_hook_file,
-            'knobs': knobs, 'sched_seed': rr.getrandbits(48)}
+            'knobs': knobs, 'sched_seed': rr.getrandbits(48),
+            # the run is a restart of its (only) stage: elaunch --restart 0 consults the restart policy for the
+            # components of that stage instead of simply running them
+            'restart_sources': rr.random() < 0.15}
 
 
 def shrink_candidates(case):
@@ -824,10 +827,21 @@ def oracle_c12(nodes, ev, states_settled, stop, viol, rec, stages_done):
         if stop is None and nd['stage'] in stages_done and h and h[-1]['reason'] is not None \
                 and states_settled.get(n) not in FINAL:
             V('refused:no-final-state', {'component': n, 'state': states_settled.get(n), 'last_exit': h[-1]['reason']})
-    if stop is not None:
-        # capped run: judged on its prefix above; a component whose last execution ended long ago without a relaunch
-        # and without a final state is the "refused restart, no final state" violation (C02 reports the hang itself)
-        pass
+    # once a restart is refused the component receives its final state - also in a run that never returns: a refusal
+    # (any restart code but RestartInitiated) that is followed neither by a launch nor by a final state for 300
+    # virtual seconds (the slowest verdict takes 25 s)
+    now = ev[-1][1] if ev else 0.0
+    for e in ev:
+        if e[2] != 'restart' or not e[4] or e[4].get('code') in (None, 'RestartInitiated'):
+            continue
+        n = e[3]
+        if n not in nodes or states_settled.get(n) in FINAL or now - e[1] < 300.0:
+            continue
+        if any(x[2] in ('launch', 'launch-fail', 'restart-begin') and x[3] == n and x[0] > e[0] for x in ev):
+            continue
+        V('refused:no-final-state', {'component': n, 'code': e[4].get('code'), 'state': states_settled.get(n),
+                                     'refused_at': e[1], 'now': now, 'restart_of_stage': True})
+        break
     for e in ev:
         if e[2] == 'restart' and e[4] and e[4].get('code'):
             rec.count('probe.restart_code.%s' % e[4]['code'])
@@ -858,7 +872,7 @@ def run_case(case, schedule, opts):
             exp = None
         if exp is not None:
             ctx.exp = exp
-            controller, comps = R.new_controller(exp)
+            controller, comps = R.new_controller(exp, restart_sources={0: True} if case.get('restart_sources') else None)
             ctx.controller = controller
             if case.get('pauses'):
                 R.start_operator(case['pauses'], slow_wake_p=case.get('slow_wake_p', 0.0))
